@@ -61,7 +61,17 @@ def run(chk):
                        "declaration, reserved PI target) and seeded token-level single and double edits; outcome class "
                        "ok/rest/err of the real from_raw vs the model; non-trivial = distinct input that the specification "
                        "model (Quirks.none) does not accept completely" % ndocs)
-    for t, why, a, c, s in mfail[:3]:
+    # search step for the character classes: a table that is wider than the Recommendation lets an illegal
+    # character through; the lowest differing code point gives the concrete input
+    wide = [w for w in X.class_table_search(tabs) if w[2] and not w[3] and w[5] == "ok"]
+    for key, cp, _, _, text, out in wide:
+        chk.violation("class_%s_%X" % (key, cp),
+                      "property C02: U+%04X is not a legal %s character in XML 1.0 5th Ed., yet a document using it there is "
+                      "reported as completely parsed\ninput (percent-encoded): %s\nimplementation: %s\n"
+                      "replay: printf 'accept\\t%s\\n' | harness/target/debug/xmlrs-driver\n"
+                      % (cp, key, lib.enc(text), out, lib.enc(text).replace("%", "%%")))
+        mfail.append((text, "class:" + key, out, "ok", "err"))
+    for t, why, a, c, s in [m for m in mfail if not m[1].startswith("class:")][:3]:
         chk.violation("accepted_%s" % lib.enc(t)[:50],
                       "property C02: an input that is not well-formed (%s) is reported as a completely parsed document\n"
                       "input (percent-encoded): %s\nimplementation: %s   model of the current source: %s   specification model: %s\n"
